@@ -536,11 +536,14 @@ def segment_expiry_scenario(order):
                     conn.send(smppref.header(0x80000015, 0, seq), delay=0.01)
                 elif cmd == 4:
                     obs['n'] += 1
-                    silent = 1 if order == 'first_silent' else 2
-                    if obs['n'] != silent:
+                    silent = 1 if order.startswith('first_silent') else 2
+                    if obs['n'] != silent and order.endswith('_other_rejected'):
+                        # the other segment is REJECTED (ESME_RSUBMITFAIL, no body): the unanswered one must still get the message its one outcome
+                        conn.send(smppref.header(0x80000004, 0x45, seq), delay=0.7 if order.startswith('first_silent') else 0.1)
+                    elif obs['n'] != silent:
                         # the accepting response to the other segment comes after the silent one has expired
                         # segment 1 written at 0.5 expires at 1.5 (noticed by the next probe); segment 2, written at 1.5, is answered at 2.2
-                        conn.send(smppref.header(0x80000004, 0, seq, b'ids%d\x00' % seq), delay=0.7 if order == 'first_silent' else 0.1)
+                        conn.send(smppref.header(0x80000004, 0, seq, b'ids%d\x00' % seq), delay=0.7 if order.startswith('first_silent') else 0.1)
         smsc.on_pdu = on_pdu
         src = PhoneNumber('38591')
 
@@ -562,11 +565,17 @@ def segment_expiry_scenario(order):
     return obs
 
 
-def oracle_segment_expiry(obs):
+def oracle_segment_expiry(obs, order=''):
     if obs['start_done']:
         return 'start() ended'
     if obs['n'] != 2:
         return f'{obs["n"]} submit_sm PDUs were written instead of 2'
+    if order.endswith('_other_rejected'):
+        # one segment rejected, one never answered: exactly one outcome, a failure (the time-out or the rejecting response)
+        o = obs['outcomes']
+        if len(o) != 1 or o[0] == ('response', 0):
+            return f'the message got the outcomes {o}, expected exactly one failure (TimeoutError or the rejecting response)'
+        return None
     if obs['outcomes'] != [('error', 'TimeoutError')]:
         return f'the message got the outcomes {obs["outcomes"]}, expected exactly one TimeoutError'
     return None
@@ -677,11 +686,11 @@ def run(ctx):
         msg = oracle_reconnect_sweep(obs, ttl)
         if msg:
             ctx.violation(msg + f' (keep-alive every {ka} s)', {'function': 'reconnect_sweep', 'ttl': ttl, 'outage': outage, 'keepalive': ka})
-    for order in ('first_silent', 'second_silent'):
+    for order in ('first_silent', 'second_silent', 'first_silent_other_rejected', 'second_silent_other_rejected'):
         obs = segment_expiry_scenario(order)
         ctx.traces += 1
         ctx.case(('segment_expiry', order), nontrivial=True)
-        msg = oracle_segment_expiry(obs)
+        msg = oracle_segment_expiry(obs, order)
         if msg:
             ctx.violation(f'two-segment message, {order.replace("_", " ")}, its time-to-live runs out before the other segment is answered: {msg}',
                           {'function': 'segment_expiry', 'order': order})
@@ -740,7 +749,7 @@ def replay(ctx, path):
         return 1 if msg else 0
     if fn == 'segment_expiry':
         obs = segment_expiry_scenario(rp['order'])
-        msg = oracle_segment_expiry(obs)
+        msg = oracle_segment_expiry(obs, rp['order'])
         print('replay: outcomes of the message:', obs['outcomes'])
         print('replay:', msg or 'property holds on this input')
         return 1 if msg else 0
